@@ -734,6 +734,13 @@ func (api *API) peerAddHandler(w http.ResponseWriter, r *http.Request) {
 
 	var addInfo peerAddBody
 	err := dec.Decode(&addInfo)
+	if err == nil {
+		// The body must be a single JSON document: only white
+		// space may follow it.
+		if _, terr := dec.Token(); terr != io.EOF {
+			err = errors.New("unexpected data after the JSON document")
+		}
+	}
 	if err != nil {
 		api.sendResponse(w, http.StatusBadRequest, errors.New("error decoding request body"), nil)
 		return
